@@ -18,6 +18,7 @@ def run(tier: str, seed: int):
                 'orders/duplicates; real SerialRunner slice n<=3')
         e3c = (list(F.fam_e3(F.fam_shapes(1, 3), workers=(1, 2), liveness=False)) + list(F.fam_e3(F.fam_shapes(3, 3, pre=False), workers=(None,)))
                + list(F.fam_e3(F.fam_variants(2), workers=(2,), liveness=False)) + list(F.fam_e3(list(F.fam_post_init(2)) + list(F.fam_inherit(2)), workers=(2,), liveness=False))
+               + list(F.fam_e3([c for c in F.fam_shapes(2, 2, pre=False) if len(c.requested) == c.spec.n], workers=(1, 2), liveness=False, prelude=True))     # an earlier call through the same backend object was aborted by a failure
                # default displays on (progress bars, task monitor with a display smaller than the number of workers)
                + list(F.fam_e3(F.fam_shapes(2, 3, pre=False), workers=(2,), backends=('fork',), liveness=False, monitor=True)))
     else:
